@@ -471,7 +471,15 @@ func run(bin, prop, tier string, seed int64, replay string, nshards int, race bo
 				defer rwg.Done()
 				sem <- struct{}{}
 				defer func() { <-sem }()
-				failed, key, msg, _ := replayOnce(bin, prop, filepath.Join(verifDir, k.Replay), filepath.Join(workDir, fmt.Sprintf("known%d", i)), race)
+				tries := 1
+				if k.Status == "known" {
+					tries = 6 // some known findings depend on map-iteration order: give them a few runs to show
+				}
+				var failed bool
+				var key, msg string
+				for t := 0; t < tries && !failed; t++ {
+					failed, key, msg, _ = replayOnce(bin, prop, filepath.Join(verifDir, k.Replay), filepath.Join(workDir, fmt.Sprintf("known%d", i)), race)
+				}
 				repResults[i] = repRes{failed, key, msg}
 			}(i, k)
 		}
